@@ -34,6 +34,13 @@ func inRepo(fn *ssa.Function) bool {
 	return strings.HasPrefix(p.Pkg.Path(), repoPrefix)
 }
 
+func insName(ins ssa.Instruction) string {
+	if v, ok := ins.(ssa.Value); ok {
+		return v.Name()
+	}
+	return "defer"
+}
+
 // calleeKey returns the contract key of a call and the static callee, if any.
 func (ex *Exec) calleeKey(st *State, c *ssa.CallCommon) (key string, fn *ssa.Function) {
 	if c.IsInvoke() {
@@ -83,7 +90,7 @@ func (ex *Exec) callValue(st *State, fr *Frame, ins ssa.Instruction, c *ssa.Call
 		key, _ := ex.calleeKey(st, c)
 		// nil interface receiver panics
 		if len(args) > 0 && args[0].Kind == VTerm && args[0].T.Sort == SortIface && !(ex.topC != nil && ex.topC.NoSafety) {
-			ex.check(st, fr, "safety", fmt.Sprintf("nilinvoke.%s.%d", c.Method.Name(), len(st.script)), Not(Eq(args[0].T, NilIface)), ex.safetyProps(), "method call on nil interface", ex.pos(pos))
+			ex.check(st, fr, "safety", fmt.Sprintf("nilinvoke.%s.%s", c.Method.Name(), insName(ins)), Not(Eq(args[0].T, NilIface)), ex.safetyProps(), "method call on nil interface", ex.pos(pos))
 		}
 		if ct := ex.db.Contracts[key]; ct != nil {
 			k(st, ex.applyContract(st, fr, ct, key, args, sig, pos))
@@ -276,6 +283,9 @@ func (ex *Exec) bindParams(ct *Contract, fnParams []string, args []Val) map[stri
 
 func (ex *Exec) applyContract(st *State, fr *Frame, ct *Contract, key string, args []Val, sig *types.Signature, pos token.Pos) []Val {
 	short := contractShort(key)
+	if !ct.Trusted {
+		ex.usedContracts[key] = true
+	}
 	st.callN[short]++
 	ord := st.callN[short]
 	var fnParams []string
@@ -288,22 +298,29 @@ func (ex *Exec) applyContract(st *State, fr *Frame, ct *Contract, key string, ar
 	old := st.snapshot()
 	env := &Env{ex: ex, st: st, old: old, vars: vars, fr: fr, pkg: ex.pkgOfKey(key), calleeCtx: true}
 	for _, r := range ct.Requires {
+		if !ex.active(r.Props) {
+			continue
+		}
 		t, err := ex.evalSpecBool(r.Expr, env)
 		if err != nil {
 			ex.errors = append(ex.errors, fmt.Sprintf("%s: requires %s of %s: %v", funcKey(ex.top), r.Label, key, err))
 			continue
 		}
 		props := r.Props
-		if len(props) == 0 {
-			props = []string{"C14"}
-		}
 		ex.check(st, fr, "pre", fmt.Sprintf("%s.%d.%s", short, ord, r.Label), t, props, "precondition of "+short+": "+r.Text, ex.pos(pos))
 	}
 	// call-site obligations of the function under verification
 	if fr.contract != nil {
 		for _, cr := range fr.contract.CallReqs {
+			if !ex.active(cr.Props) {
+				continue
+			}
 			if (cr.Callee == short || cr.Callee == key || strings.HasSuffix(key, "."+cr.Callee) || strings.HasSuffix(key, ")."+cr.Callee)) && (cr.CallN == 0 || cr.CallN == ord) {
-				cenv := &Env{ex: ex, st: st, old: ex.entryFor(fr), vars: vars, fr: fr, pkg: ex.pkgOfFrame(fr), callerLocals: true}
+				avars := map[string]Val{}
+				for ai, a := range args {
+					avars[fmt.Sprintf("arg%d", ai)] = a
+				}
+				cenv := &Env{ex: ex, st: st, old: ex.entryFor(fr), vars: avars, fr: fr, pkg: ex.pkgOfFrame(fr), callerLocals: true}
 				t, err := ex.evalSpecBool(cr.Expr, cenv)
 				if err != nil {
 					ex.errors = append(ex.errors, fmt.Sprintf("%s: call-site obligation %s: %v", funcKey(ex.top), cr.Label, err))
@@ -329,6 +346,8 @@ func (ex *Exec) applyContract(st *State, fr *Frame, ct *Contract, key string, ar
 		}
 	}
 	// results
+	allocBefore := st.allocCtr
+	st.bumpAlloc()
 	var rets []Val
 	post := &Env{ex: ex, st: st, old: old, vars: map[string]Val{}, fr: fr, pkg: env.pkg, calleeCtx: true}
 	for n, v := range vars {
@@ -348,6 +367,9 @@ func (ex *Exec) applyContract(st *State, fr *Frame, ct *Contract, key string, ar
 			}
 			v = ex.havocVal(st, hint, rt)
 		}
+		if v.Kind == VTerm {
+			ex.knownVal(st, v.T, rt)
+		}
 		rets = append(rets, v)
 		if i < len(ct.Results) {
 			post.vars[ct.Results[i]] = v
@@ -360,6 +382,9 @@ func (ex *Exec) applyContract(st *State, fr *Frame, ct *Contract, key string, ar
 		}
 	}
 	for _, e := range ct.Ensures {
+		if !ex.active(e.Props) {
+			continue
+		}
 		t, err := ex.evalSpecBool(e.Expr, post)
 		if err != nil {
 			ex.errors = append(ex.errors, fmt.Sprintf("%s: ensures %s of %s: %v", funcKey(ex.top), e.Label, key, err))
@@ -367,7 +392,40 @@ func (ex *Exec) applyContract(st *State, fr *Frame, ct *Contract, key string, ar
 		}
 		st.assume(t)
 	}
+	// freshly allocated results: distinct from everything allocated so far
+	for _, fc := range ct.Fresh {
+		v, err := ex.evalSpec(fc.Expr, post)
+		if err != nil {
+			ex.errors = append(ex.errors, fmt.Sprintf("%s: fresh clause of %s: %v", funcKey(ex.top), key, err))
+			continue
+		}
+		cond := TrueT
+		if fc.When != nil {
+			c, err := ex.evalSpecBool(fc.When, post)
+			if err != nil {
+				ex.errors = append(ex.errors, fmt.Sprintf("%s: fresh clause of %s: %v", funcKey(ex.top), key, err))
+				continue
+			}
+			cond = c
+		}
+		id, err := ex.idOfErr(v)
+		if err != nil {
+			ex.errors = append(ex.errors, fmt.Sprintf("%s: fresh clause of %s: %v", funcKey(ex.top), key, err))
+			continue
+		}
+		facts := []Term{Gt(id, IntLit(0)), Ge(id, allocBefore), Not(mkTerm("(isold "+id.S+")", SortBool)), Eq(mkTerm("(rg.kind "+id.S+")", SortInt), IntLit(0))}
+		st.assume(Implies(cond, And(facts...)))
+	}
 	return rets
+}
+
+func (ex *Exec) idOfErr(v Val) (t Term, err error) {
+	defer func() {
+		if r := recover(); r != nil {
+			err = fmt.Errorf("%v", r)
+		}
+	}()
+	return ex.idOf(v), nil
 }
 
 func contractShort(key string) string {
@@ -417,7 +475,14 @@ func (ex *Exec) unknownCall(st *State, fr *Frame, key string, args []Val, sig *t
 		ex.havocReachableCells(st, a)
 	}
 	ex.havocAll(st, true)
-	return ex.havocResults(st, sig)
+	st.bumpAlloc()
+	rs := ex.havocResults(st, sig)
+	for i, r := range rs {
+		if r.Kind == VTerm {
+			ex.knownVal(st, r.T, sig.Results().At(i).Type())
+		}
+	}
+	return rs
 }
 
 func (ex *Exec) havocReachableCells(st *State, a Val) {
@@ -953,19 +1018,19 @@ func (ex *Exec) doAppend(st *State, fr *Frame, s, t Val, sty, tty types.Type) Va
 	} else {
 		var src string
 		if fromString {
-			src = fmt.Sprintf("(b.at %s j)", t.T.S)
+			src = fmt.Sprintf("(b.at %s (- k %s))", t.T.S, base.S)
 		} else {
-			src = fmt.Sprintf("(select %s (+ %s j))", Select(m, SlRg(t.T)).S, SlOff(t.T).S)
+			src = fmt.Sprintf("(select %s (+ %s (- k %s)))", Select(m, SlRg(t.T)).S, SlOff(t.T).S, base.S)
 		}
-		st.emit(fmt.Sprintf("(assert (forall ((j Int)) (! (=> (and (<= 0 j) (< j %s)) (= (select %s (+ %s j)) %s)) :pattern ((select %s (+ %s j))))))",
-			tlen.S, na.S, base.S, src, na.S, base.S))
+		st.emit(fmt.Sprintf("(assert (forall ((k Int)) (! (=> (and (<= %s k) (< k %s)) (= (select %s k) %s)) :pattern ((select %s k)))))",
+			base.S, Add(base, tlen).S, na.S, src, na.S))
 		// in place: everything outside the appended window is unchanged
 		st.emit(fmt.Sprintf("(assert (=> %s (forall ((j Int)) (! (=> (or (< j %s) (>= j %s)) (= (select %s j) (select %s j))) :pattern ((select %s j))))))",
 			fits.S, base.S, Add(base, tlen).S, na.S, oldS.S, na.S))
 	}
 	// old elements preserved (fresh case: copied to offset 0)
-	st.emit(fmt.Sprintf("(assert (forall ((j Int)) (! (=> (and (<= 0 j) (< j %s)) (= (select %s (+ %s j)) (select %s (+ %s j)))) :pattern ((select %s (+ %s j))))))",
-		SlLen(s.T).S, na.S, off.S, oldS.S, SlOff(s.T).S, na.S, off.S))
+	st.emit(fmt.Sprintf("(assert (forall ((k Int)) (! (=> (and (<= %s k) (< k %s)) (= (select %s k) (select %s (+ %s (- k %s))))) :pattern ((select %s k)))))",
+		off.S, Add(off, SlLen(s.T)).S, na.S, oldS.S, SlOff(s.T).S, off.S, na.S))
 	if es == SortInt {
 		var tb Term
 		if fromString {
@@ -1003,9 +1068,9 @@ func (ex *Exec) doCopy(st *State, fr *Frame, d, s Val, sty types.Type) Val {
 	hi := Add(lo, nn)
 	var src string
 	if fromString {
-		src = fmt.Sprintf("(b.at %s j)", s.T.S)
+		src = fmt.Sprintf("(b.at %s (- k %s))", s.T.S, lo.S)
 	} else {
-		src = fmt.Sprintf("(select %s (+ %s j))", Select(m, SlRg(s.T)).S, SlOff(s.T).S)
+		src = fmt.Sprintf("(select %s (+ %s (- k %s)))", Select(m, SlRg(s.T)).S, SlOff(s.T).S, lo.S)
 	}
 	var srcBytes Term
 	if es == SortInt {
@@ -1016,8 +1081,8 @@ func (ex *Exec) doCopy(st *State, fr *Frame, d, s Val, sty types.Type) Val {
 		}
 	}
 	na := ex.havocWindow(st, SlRg(d.T), lo, hi, es)
-	st.emit(fmt.Sprintf("(assert (forall ((j Int)) (! (=> (and (<= 0 j) (< j %s)) (= (select %s (+ %s j)) %s)) :pattern ((select %s (+ %s j))))))",
-		nn.S, na.S, lo.S, src, na.S, lo.S))
+	st.emit(fmt.Sprintf("(assert (forall ((k Int)) (! (=> (and (<= %s k) (< k %s)) (= (select %s k) %s)) :pattern ((select %s k)))))",
+		lo.S, hi.S, na.S, src, na.S))
 	if es == SortInt {
 		st.assume(Eq(BOf(na, lo, nn), srcBytes))
 	}
